@@ -96,6 +96,20 @@ def scribble(v):
         v.append("$scribbled")
 
 
+def share(v, pool):
+    """the same value with every pair of EQUAL containers made ONE object (a DAG, as application code builds when it reuses a
+    default-arguments dict or lists one row twice); JSON has no notion of object identity, so nothing may depend on it"""
+    import json as _json
+    if isinstance(v, dict):
+        v = {k: share(x, pool) for k, x in v.items()}
+    elif isinstance(v, list):
+        v = [share(x, pool) for x in v]
+    else:
+        return v
+    key = _json.dumps(v, sort_keys=True, default=repr) + ("D" if isinstance(v, dict) else "L")
+    return pool.setdefault(key, v)
+
+
 def run_case(c):
     op = c["op"]
     try:
@@ -112,6 +126,15 @@ def run_case(c):
             d2 = obj.model_dump(by_alias=True, exclude_none=True)
             out["second_dump_equal"] = canon(d2) == before
             out["wire_untouched"] = canon(wire) == canon(c["data"])
+            pool = {}
+            aliased = share(_copy.deepcopy(c["data"]), pool)
+            try:
+                o2 = observe(resolve(c["cls"]).model_validate(aliased))
+            except BaseException as e:  # noqa: BLE001
+                o2 = {"ok": False, "exc": type(e).__name__}
+            keys = ("ok", "typed", "dump", "dump_noalias", "dump_json")
+            out["shared"] = "same" if all(o2.get(k) == out.get(k) for k in keys) else \
+                {"$differs": {k: o2.get(k) for k in keys if o2.get(k) != out.get(k)}}
             return out
         if op == "construct":      # keyword construction, as library code does
             return observe(resolve(c["cls"])(**c["data"]))
